@@ -30,6 +30,7 @@
 // null dereference: the driver logs K_FAULT 0 9 instead of executing it (result -1); with guard it is skipped (-2).
 // Handles still alive when a thread's program ends are NOT destroyed by that thread: the generator appends
 // explicit Destroy ops; what is left is destroyed un-logged by the driver's main thread after final().
+#define VS_STRICT_POSITIVE_LIMITS  // the wrapper drivers only pass positive limits: a limit <= 0 at the mutex was shortened on the way
 #include "vstd.hpp"
 #include "wrapper_extra.hpp"
 #define std vstd
@@ -196,6 +197,11 @@ template<class M, class P>
 struct WType<5, M, P> {
     using type = lg::atomic_guarded<P, M>;
 };
+// 6: atomic_guarded<T> with its DEFAULT mutex argument (std::mutex on the unmodified library: the same type as <T, M>)
+template<class M, class P>
+struct WType<6, M, P> {
+    using type = lg::atomic_guarded<P>;
+};
 
 template<class M>
 long sharers_of(const M&)
@@ -215,10 +221,10 @@ struct Wrap: IWrap {
     static constexpr bool hasX = (FL <= 3);
     static constexpr bool hasS = (FL >= 2 && FL <= 4);
     static constexpr bool hasConst = (FL == 2 || FL == 3);
-    static constexpr bool hasLS = (FL == 0 || FL == 1 || FL == 4 || FL == 5);
+    static constexpr bool hasLS = (FL == 0 || FL == 1 || FL == 4 || FL == 5 || FL == 6);
     static constexpr bool hasFn = (FL == 4);
-    static constexpr bool hasXc = (FL == 5);
-    static constexpr bool hasCast = (FL == 4 || FL == 5);
+    static constexpr bool hasXc = (FL == 5 || FL == 6);
+    static constexpr bool hasCast = (FL == 4 || FL == 5 || FL == 6);
     static constexpr bool timed = std::is_same_v<M, vstd::timed_mutex> || std::is_same_v<M, vstd::shared_timed_mutex>;
 
     struct Slot {
@@ -289,7 +295,13 @@ struct Wrap: IWrap {
                 if constexpr (hasX) return installX(my[h], w->try_lock());
                 return -1;
             case 2:
-                if constexpr (hasX && timed) return installX(my[h], w->try_lock_for(ms));
+                if constexpr (hasX && timed) {
+                    // second argument: the (positive) limit in another representation, below one millisecond
+                    if (arg(2) == 1) return installX(my[h], w->try_lock_for(std::chrono::microseconds(900)));
+                    if (arg(2) == 2) return installX(my[h], w->try_lock_for(std::chrono::nanoseconds(250000)));
+                    if (arg(2) == 3) return installX(my[h], w->try_lock_for(std::chrono::duration<double, std::milli>(0.9)));
+                    return installX(my[h], w->try_lock_for(ms));
+                }
                 return -1;
             case 3:
                 if constexpr (hasX && timed) {
@@ -305,7 +317,13 @@ struct Wrap: IWrap {
                 if constexpr (hasS) return installS(my[h], w->try_lock_shared());
                 return -1;
             case 6:
-                if constexpr (hasS && timed) return installS(my[h], w->try_lock_shared_for(ms));
+                if constexpr (hasS && timed) {
+                    if (arg(2) == 1) return installS(my[h], w->try_lock_shared_for(std::chrono::microseconds(900)));
+                    if (arg(2) == 2) return installS(my[h], w->try_lock_shared_for(std::chrono::nanoseconds(250000)));
+                    if (arg(2) == 3)
+                        return installS(my[h], w->try_lock_shared_for(std::chrono::duration<double, std::milli>(0.9)));
+                    return installS(my[h], w->try_lock_shared_for(ms));
+                }
                 return -1;
             case 7:
                 if constexpr (hasS && timed) {
@@ -559,7 +577,19 @@ struct WrapperComp {
             case 2: w.reset(make_p<2>(c, cf(1), en, cf(3), plain)); break;
             case 3: w.reset(make_p<3>(c, cf(1), en, cf(3), plain)); break;
             case 4: w.reset(make_p<4>(c, cf(1), en, cf(3), plain)); break;
-            default: w.reset(make_p<5>(c, cf(1), en, cf(3), plain)); break;
+            default:
+                // atomic_guarded over a plain mutex: with an even initial value through the default template argument
+                if (cf(1) == 0 && cf(3) % 2 == 0) {
+                    if (plain == 2)
+                        w.reset(new Wrap<6, vstd::mutex, vs::TPay>(c, en, cf(3)));
+                    else if (plain != 0)
+                        w.reset(new Wrap<6, vstd::mutex, long>(c, en, cf(3)));
+                    else
+                        w.reset(new Wrap<6, vstd::mutex, WPay>(c, en, cf(3)));
+                } else {
+                    w.reset(make_p<5>(c, cf(1), en, cf(3), plain));
+                }
+                break;
         }
     }
     long op(int tid, const std::vector<long>& o) { return w->op(tid, o); }
